@@ -102,13 +102,19 @@ def dims(cf):
 
 
 def random_picture(cf, rng, kind=None, pic_num=None):
-    """An in-range picture for cf.  kind: noise|zeros|max|mid|extremes|ramp"""
+    """An in-range picture for cf.  kind: noise|zeros|max|mid|extremes|ramp|twin (noise with C2 equal to C1)|skew (one noisy component, the others constant)"""
     # noise dominates: only busy content fills lossy slices up to their byte budgets
-    kind = kind or rng.choice(["noise", "noise", "noise", "noise", "zeros", "max", "mid", "extremes", "ramp"])
+    kind = kind or rng.choice(["noise", "noise", "noise", "noise", "zeros", "max", "mid", "extremes", "ramp", "twin", "skew"])
     pic = {}
+    busy = rng.choice(["Y", "C1", "C2", "C2"])       # kind "skew": one busy component, the others smooth
     for c, (w, h, depth) in dims(cf).items():
         top = (1 << depth) - 1
-        if kind == "noise":
+        if kind == "twin" and c == "C2" and "C1" in pic and len(pic["C1"]) == h and len(pic["C1"][0]) == w:
+            a = [list(r) for r in pic["C1"]]      # equal (not identical) colour-difference planes
+        elif kind == "skew" and c != busy:
+            v = rng.choice([(top + 1) // 2, 0, top, rng.randint(0, top)])
+            a = [[v] * w for _ in range(h)]
+        elif kind in ("noise", "twin", "skew"):
             a = [[rng.randint(0, top) for _ in range(w)] for _ in range(h)]
         elif kind == "zeros":
             a = [[0] * w for _ in range(h)]
@@ -271,7 +277,7 @@ class OutOfScope(BaseException):
     pass
 
 
-GUARD_LIMITS = dict(max_samples=1 << 16, max_depth=6, max_slices=1 << 10, max_sample_bits=40, max_dim=1 << 12)
+GUARD_LIMITS = dict(max_samples=1 << 16, max_depth=6, max_slices=1 << 10, max_sample_bits=128, max_dim=1 << 12)
 _guards_installed = False
 
 
@@ -369,6 +375,27 @@ def encoder_stream(rng, n_pictures=None, **overrides):
         if kw["fields"] and n % 2:
             n += 1
         pics = [random_picture(cf, rng) for _ in range(n)]
+        try:
+            seq = encoder.make_sequence(cf, pics)
+        except encoder.UnsatisfiableCodecFeaturesError:
+            continue
+        return describe_config(kw), serialise([seq]), pics
+
+
+def deep_lossless_stream(rng):
+    """(config description, bytes, pictures): a conformant lossless stream with VERY deep samples (33..100 bits,
+    chosen around the machine-word boundaries) whose pictures contain the extreme sample values.  Custom signal
+    ranges allow any depth; consumers that switch to native integer arrays break at 2^31, 2^32, 2^63, 2^64."""
+    from vc2_conformance import encoder
+    while True:
+        kw = random_small_config(rng, allow_ld=False, lossless=True, max_w=8, max_h=4)
+        bits = rng.choice([31, 32, 33, 40, 63, 64, 64, 64, 65, 100])
+        cbits = rng.choice([bits, bits, 8, 64])
+        kw.update(luma_offset=0, luma_excursion=(1 << bits) - 1, color_diff_offset=1 << (cbits - 1),
+                  color_diff_excursion=(1 << cbits) - 1)
+        cf = make_codec_features(**kw)
+        n = 2 if kw["fields"] else rng.choice([1, 2])
+        pics = [random_picture(cf, rng, rng.choice(["extremes", "max", "noise", "extremes"])) for _ in range(n)]
         try:
             seq = encoder.make_sequence(cf, pics)
         except encoder.UnsatisfiableCodecFeaturesError:
@@ -562,6 +589,11 @@ def degenerate_stream(rng):
         body += _payload(rng)
     code_pic = {(0, False): 0xC8, (3, False): 0xE8, (0, True): 0xCC, (3, True): 0xEC}[(profile, fragment)]
     units = [(0x00, hdr), (code_pic, body)] + [(code_pic, f) for f in frags]
+    # padding / auxiliary data units with run-structured payloads, before and/or after the picture
+    for pos in (1, len(units)):
+        if rng.random() < 0.25:
+            units.insert(pos, (rng.choice([0x30, 0x20]), run_payload(rng) if rng.random() < 0.8 else _payload(rng)))
+            label += " +pad" if units[pos][0] == 0x30 else " +aux"
     out, prev = b"", 0
     for code, b in units:
         out += _pi(code, 13 + len(b), prev) + b
@@ -570,7 +602,22 @@ def degenerate_stream(rng):
     return "degenerate:%s%s v%d %dx%d d%d+%d s%dx%d" % (label, " frag" if fragment else "", major, width, height, depth, depth_ho, sx, sy), out
 
 
+def run_payload(rng):
+    """Bytes whose hex dump has long runs of one digit that start/end at arbitrary NIBBLE positions
+    (formatters that abbreviate runs work at digit, not byte, granularity)."""
+    digits = ""
+    for _ in range(rng.choice([1, 1, 2, 3])):
+        digits += "".join(rng.choice("0123456789abcdef") for _ in range(rng.choice([0, 1, 1, 2, 3])))
+        digits += rng.choice("0f0f37a") * rng.choice([7, 15, 16, 17, 18, 20, 31, 32, 33, 64, 65])
+    digits += "".join(rng.choice("0123456789abcdef") for _ in range(rng.choice([0, 1, 2, 3])))
+    if len(digits) % 2:
+        digits = digits + rng.choice("0123456789abcdef") if rng.random() < 0.5 else rng.choice("0123456789abcdef") + digits
+    return bytes.fromhex(digits)
+
+
 def _payload(rng):
+    if rng.random() < 0.2:
+        return run_payload(rng)
     n = rng.choice([0, 0, 1, 2, 3, 5, 12, 40])
     mode = rng.randrange(4)
     if mode == 0:
